@@ -176,13 +176,37 @@ def correspondence(ctx):
                 # float32 OPERANDS store slightly different physical inputs in different units
                 in32 = any32 or any(o['dtype'] == 'float32' for o in g['operands'].values())
                 by_phys.setdefault(key, []).append((phys, d, in32, et))
+    # physical value of the float64 twin of every group that has float32 operands (same call, those operands in double)
+    twin_phys = {}
+    for g, r in zip(groups, res['groups']):
+        if g.get('twin_of') is not None and 'result' in r and not isinstance(r['result']['values'][0], str):
+            rr = r['result']
+            from fractions import Fraction
+            twin_phys[g['twin_of']] = float(Fraction(int(rr['values'][0][0]), int(rr['values'][0][1])) *
+                                            Fraction(int(rr['unit']['mult'][0]), int(rr['unit']['mult'][1])))
     for key, lst in by_phys.items():
-        ref = lst[0][0]
-        for phys, d, any32, et in lst[1:]:
+        # reference: a case whose float64 twin (if it has one) agrees with it, so that a float32 RANGE failure (known
+        # finding '<kernel>:float32-range': the folded constant leaves the float32 range in some units) is never the yardstick
+        def sane(item):
+            phys, d, any32, et = item
+            tp = twin_phys.get(d['gid'])
+            return tp is None or abs(phys - tp) <= (2e-5 if et else 4e-6) * abs(tp)
+        ref_item = next((it for it in lst if sane(it)), lst[0])
+        ref = ref_item[0]
+        for phys, d, any32, et in lst:
+            if d is ref_item[1]:
+                continue
             tol = (2e-5 if et else 4e-6) if any32 else (2e-11 if et else 2e-12)
             if abs(phys - ref) > tol * abs(ref):
+                tp = twin_phys.get(d['gid'])
+                if tp is not None and abs(tp - ref) <= (2e-5 if et else 4e-6) * abs(ref):
+                    # wrong only in single precision, right when the same operands are given in double precision
+                    ctx.violation(f'{key[0]}:float32-range',
+                                  f'{key[0]}: single-precision operands in these units give another physical result ({phys}) than the '
+                                  f'same call in double precision and than other unit choices ({ref}): {d}', {'case': d, 'reference': ref_item[1]})
+                    continue
                 ctx.violation(f'{key[0]}:equivariance', f'{key[0]}: physical result changes with the unit of an operand: {ref} vs {phys}',
-                              {'reference': lst[0][1], 'case': d})
+                              {'reference': ref_item[1], 'case': d})
                 break
     header = ('From Coq Require Import QArith ZArith String List.\n'
               'From Verif.Sem Require Import Field Val QInst Corr.\nFrom Run Require Import Corr.\n'
